@@ -79,9 +79,12 @@ impl Check for C09 {
         if has_db {
             let _ = std::fs::write(&db_path, &sc.price_db);
         }
+        // a commodity that is neither declared nor mentioned by any event is unknown to okane
+        // ("commodity not found"); that is not a conversion question
+        let known: Vec<String> = sc.commodities.iter().filter(|c| sc.declared.contains(c) || model.commodities.contains(*c)).cloned().collect();
         let mut queries: Vec<(String, String, NaiveDate)> = Vec::new();
-        for a in &sc.commodities {
-            for b in &sc.commodities {
+        for a in &known {
+            for b in &known {
                 for d in sc.query_dates() {
                     queries.push((a.clone(), b.clone(), d));
                 }
